@@ -197,6 +197,14 @@ def run_solver_case(ctx, case):
                 ctx.count("filters_given_as_a_one_shot_iterator")
         else:
             kwargs["ready_operations_filter"] = gen.make_filter(filt)
+    if isinstance(kwargs.get("ready_operations_filter"), list) and len(set(names)) >= 2 and (
+            case["seed"] % 3 == 2 or gen.is_flexible(inst)):
+        # another solver of the same process was configured with the same filters in the opposite
+        # order (and used once) before this one is built
+        decoy = DispatchingRuleSolver("first_come_first_served", "first",
+                                      ready_operations_filter=list(reversed(kwargs["ready_operations_filter"])))
+        decoy.solve(instance)
+        ctx.count("solvers_built_after_one_with_the_same_filters_in_reverse_order")
     solver_cls = DispatchingRuleSolver
     if case["seed"] % 3 == 0:
         # a user's own solver class derived from the library's: its name goes into the metadata
@@ -351,6 +359,12 @@ def run_solver_case(ctx, case):
                         d.dispatch(ops[o0], rng.choice(tr0.r.op_machines[o0]))
                     d.reset()
                     ctx.count("solver_given_a_reset_dispatcher")
+                if solver.ready_operations_filter is not None and case["seed"] % 7 == 3:
+                    # the caller's dispatcher carries the same filter wrapped by user code that failed
+                    # once (the caller caught it) before the solver is asked to take over
+                    d.ready_operations_filter = gen.Flaky(solver.ready_operations_filter)
+                    if gen.fail_once(d, rng.choice([d.available_operations, d.current_time])):
+                        ctx.count("solver_given_a_dispatcher_whose_filter_failed_once")
                 S = solver.solve(instance, d)
             elif api == "solve_partial":
                 # the solver takes over a dispatcher that already holds a partial schedule
@@ -376,6 +390,10 @@ def run_solver_case(ctx, case):
                         dup.dispatch(dup.instance.jobs[rr2.op_job[o2]][rr2.op_pos[o2]], m2)
                         rr2.apply(o2, m2)
                     ctx.count("copies_advanced_before_the_solver_continued")
+                if solver.ready_operations_filter is not None and case["seed"] % 7 in (3, 5):
+                    d.ready_operations_filter = gen.Flaky(solver.ready_operations_filter)
+                    if gen.fail_once(d, rng.choice([d.available_operations, d.current_time])):
+                        ctx.count("solver_given_a_dispatcher_whose_filter_failed_once")
                 S = solver.solve(instance, d)
             else:
                 S = solver(instance)
